@@ -225,9 +225,9 @@ func buildBatch(work string, results []GenResult) (string, error) {
 		bad := map[string]string{}
 		lines := strings.Split(string(out), "\n")
 		for _, l := range lines {
-			m := regexp.MustCompile(`mod/(p[0-9A-Za-z_]+)/`).FindStringSubmatch(l)
+			m := regexp.MustCompile(`mod/([a-z][0-9A-Za-z_]+)/`).FindStringSubmatch(l)
 			if m == nil {
-				m = regexp.MustCompile(`^# verifscratch/mod/(p[0-9A-Za-z_]+)`).FindStringSubmatch(l)
+				m = regexp.MustCompile(`^# verifscratch/mod/([a-z][0-9A-Za-z_]+)`).FindStringSubmatch(l)
 			}
 			if m != nil {
 				if _, ok := bad[m[1]]; !ok || strings.HasPrefix(bad[m[1]], "#") {
